@@ -46,6 +46,12 @@ func randomConfig(g *vc.Rng, profile string, i int) config {
 	// one schedule in three: the network write is a step boundary of its own (everything the server can do with a
 	// message may then happen before its sender is back from WriteMsg)
 	c.wire = g.Intn(3) == 0
+	// one schedule in six (profiles with salt messages): the session storage fails once, or always; its error goes to
+	// warnError, so these schedules run without a Warnings channel (the model has no storage errors to warn about)
+	if (profile == "c11" || profile == "c16") && !c.fresh && g.Intn(6) == 0 {
+		c.store = []string{"fail1", "failall"}[g.Intn(2)]
+		c.warnCap = -1
+	}
 	return c
 }
 
